@@ -12,7 +12,7 @@ import (
 
 func init() {
 	Register(&Scenario{
-		Prop: "C08", Run: scenarioC08, QuickRuns: 1200, ThoroughRuns: 30000, Level: "exploration",
+		Prop: "C08", Run: scenarioC08, QuickRuns: 9600, ThoroughRuns: 240000, Level: "exploration",
 		Rule:       "one run = a seeded world; every speciation the library performs (population construction, ReadPopulation, every epoch turnover of both executors, and direct calls with tape-permuted batches split into several calls) is observed at its beginning (batch in arrival order, species and their representatives at that instant) and replayed afterwards step by step from the actual state: organism k must sit in a species whose representative is nearest among those under the threshold (reference distance), or have founded a species with a fresh id exactly when none was under the threshold. A case is one assignment decision; non-trivial when at least two species existed at that moment; distinct by (number of candidate species, rank pattern of the distances, outcome)",
 		RealParts:  []string{"Population.speciate, createFirstSpecies, Genome.compatibility (both methods)", "NewPopulation, NewPopulationRandom, ReadPopulation, both epoch executors"},
 		StubParts:  []string{"fitness assignment", "goroutine choice in parallel worlds"},
